@@ -41,9 +41,20 @@ CHECKS = {
                 "'binary_find = linear_find on renumbered structures' and renumber idempotence are checked by correspondence, not yet proved.",
         "technique": "Coq proof (stable-sort characterisation, binary-search loop invariant) + differential correspondence",
     },
+    "C12": {
+        "text": "Theorems for every expression tree (unbounded depth) and every structure: at each of the five levels find equals the filter of the "
+                "level's atoms-with-hierarchy, in traversal order, by 'the strong-Kleene value of the expression under the declarative term semantics on "
+                "the atom and its ancestors is not false' (C12_pdb_find ... C12_conformer_find); proved from a generic theorem about staged partial "
+                "evaluation with constant folding and subtree pruning (Base/Kleene.v: staged_kleene, parent_ok). Term evaluation per level and the five "
+                "pipelines are hand-written mirrors tied by correspondence; find_mut is compared with the same specification.",
+        "design_ref": "DESIGN.md section 6 C12",
+        "note": "Trusted: Coq kernel, extraction, harness, T2b (name tables). Ancestors = the levels present in the tuple the find returns "
+                "(a find started on a chain knows nothing about the model). Float terms are exercised on grid values only.",
+        "technique": "Coq proof (induction over expression trees and hierarchy lists; refinement of a pruned pipeline to a Kleene filter) + differential correspondence",
+    },
 }
 
 NOT_APPLICABLE = [
     {"property_id": p, "reason": PENDING}
-    for p in ["C01", "C02", "C03", "C04", "C05", "C06", "C09", "C10", "C12", "C13", "C14", "C15", "C16", "C17", "C18"]
+    for p in ["C01", "C02", "C03", "C04", "C05", "C06", "C09", "C10", "C13", "C14", "C15", "C16", "C17", "C18"]
 ]
